@@ -418,9 +418,9 @@ Proof. exact wf_consumed_run. Qed.
    every inner builder held by one of its nodes is compiled; whatever is called afterwards on the outer graph or on
    any inner builder (Add* / Append*, further Compiles of either), the graph of that inner builder stays exactly what it
    is, and every Add* on an inner Graph is answered with ErrGraphCompiled. *)
-Theorem nested_children_frozen : forall s o s1 r k id i cs,
+Theorem nested_children_frozen : forall s o s1 r k id oc i cs,
   nstep s (NOuter (GCompile o)) = (s1, OCompiled r) ->
-  In k (map fst (g_nodes (ns_out s))) -> nlookup k (ns_att s) = Some id -> nlookup id (ns_inn s1) = Some i ->
+  In k (map fst (g_nodes (ns_out s))) -> nlookup k (ns_att s) = Some (id, oc) -> nlookup id (ns_inn s1) = Some i ->
   let s2 := final nstep s1 cs in
   child_frozen s2 id (inner_graph i)
   /\ (forall gi c, nlookup id (ns_inn s2) = Some (IG gi) -> g_err gi = None -> is_add c = true ->
@@ -430,10 +430,10 @@ Print Assumptions nested_children_frozen.
 
 (* the same for the states the correspondence replays — whatever was called before the Compile: every attachment
    names a node of the outer graph ([att_inv], an invariant of [nstep]) *)
-Theorem nested_children_frozen_reachable : forall st cs0 o s1 r k id i cs,
+Theorem nested_children_frozen_reachable : forall st cs0 o s1 r k id oc i cs,
   let s := final nstep (n_init st) cs0 in
   nstep s (NOuter (GCompile o)) = (s1, OCompiled r) ->
-  nlookup k (ns_att s) = Some id -> nlookup id (ns_inn s1) = Some i ->
+  nlookup k (ns_att s) = Some (id, oc) -> nlookup id (ns_inn s1) = Some i ->
   let s2 := final nstep s1 cs in
   child_frozen s2 id (inner_graph i)
   /\ (forall gi c, nlookup id (ns_inn s2) = Some (IG gi) -> g_err gi = None -> is_add c = true ->
@@ -446,7 +446,7 @@ Print Assumptions nested_children_frozen_reachable.
 Theorem nested_frozen_chain_child_reports : forall s id ch nk key ns,
   nlookup id (ns_inn s) = Some (IC ch) -> g_compiled (c_g ch) = true ->
   exists ch', nlookup id (ns_inn (fst (nstep s (NInner id (KC (CAppend nk key ns)))))) = Some (IC ch')
-    /\ c_g ch' = c_g ch /\ exists e, c_err ch' = Some e /\ inner_compile (IC ch') = (IC ch', OErr e).
+    /\ c_g ch' = c_g ch /\ exists e, c_err ch' = Some e /\ forall oc, inner_compile (IC ch') oc = (IC ch', OErr e).
 Proof. exact BuilderNested.nested_frozen_chain_child_reports. Qed.
 Print Assumptions nested_frozen_chain_child_reports.
 
@@ -456,6 +456,17 @@ Example nested_children_frozen_nonvacuous :
   | _ => False
   end.
 Proof. exact one_child_run_outcomes. Qed.
+
+(* "invalid option combinations" on the nested entry: the options of a node (WithGraphCompileOptions) are what its child is
+   compiled with — a Chain child refuses a trigger mode, a Graph child compiled in all-predecessor mode refuses its cycle,
+   and the parent's Compile returns that error (the rules are those of rejects_each_kind / rejects_deferred: [inner_compile]
+   is [g_compile] / [c_compile]) *)
+Example nested_child_options_nonvacuous :
+  match snd (run_calls nstep (n_init false) child_options_run), snd (run_calls nstep (n_init false) child_options_run2) with
+  | [OOk; OOk; OOk; OErr ETriggerUnsupported; OOk], [OOk; OOk; OOk; OOk; OErr EDagLoop; OCompiled _] => True
+  | _, _ => False
+  end.
+Proof. exact child_options_run_outcomes. Qed.
 
 (* ------------------------------------------------------------------ the repaired defects *)
 (* F-C20a: on the original code a Workflow branch to a node that was never added made
